@@ -51,6 +51,8 @@ func main() {
 		sh, _ := strconv.Atoi(os.Args[3])
 		n, _ := strconv.Atoi(os.Args[4])
 		checks.C16Shard(os.Args[2], sh, n)
+	case "c09block":
+		checks.C09Block()
 	case "c09solo":
 		checks.C09Solo(os.Args[2:]...)
 	case "c09race":
